@@ -147,8 +147,9 @@ func ruleClientIDs(c *Ctx, r1, r2, r3 string) {
 		} else if allocSucceededAt(alloc, ret) {
 			// failure after the stream was registered: entry removed
 			rm := false
+			csIDf, _, _ := c.streamIDFields()
 			allInstrs(fn, func(in ssa.Instruction) {
-				if call, ok := in.(*ssa.Call); ok && staticCallee(call) == a.ClientRemove && dominates(call, ret) {
+				if c.isTableRemoval(in, a.ChStreams, csIDf) && dominates(in, ret) {
 					rm = true
 				}
 			})
@@ -1135,12 +1136,15 @@ func ruleTablePairing(c *Ctx, rule string) {
 	csID, ssID, _ := c.streamIDFields()
 	// client
 	isRm := func(fn *ssa.Function, idf FieldRef) func(ssa.Instruction) bool {
+		table := a.ChStreams
+		if fn == a.ServerRemove {
+			table = a.SvStreams
+		}
 		return func(in ssa.Instruction) bool {
-			ci, ok := in.(ssa.CallInstruction)
-			if !ok || staticCallee(ci) != fn {
-				return false
+			if c.isTableRemoval(in, table, idf) {
+				return true
 			}
-			return isFieldLoad(origin(ci.Common().Args[1]), idf)
+			return false
 		}
 	}
 	var cas *ssa.Call
@@ -1153,7 +1157,16 @@ func ruleTablePairing(c *Ctx, rule string) {
 		c.fail(rule, "client finish CAS", "-", "not found")
 	} else if ifi := ifOn(cas); ifi != nil {
 		succ := ifi.Block().Succs[0]
-		esc := pathAvoiding(a.ClientFinish, succ.Instrs[0], isExit, isRm(a.ClientRemove, csID))
+		// an edge on which the table is known to be nil (already dropped by close) has nothing to remove
+		nilEdge := func(pred, sc *ssa.BasicBlock) bool {
+			if ef, has := edgeFact(pred, sc); has {
+				if x, op, y, ok := cmpFact(ef); ok && op == token.EQL && isNilConst(y) && isFieldLoad(x, a.ChStreams) {
+					return true
+				}
+			}
+			return false
+		}
+		esc := pathAvoidingE(a.ClientFinish, succ.Instrs[0], isExit, isRm(a.ClientRemove, csID), nilEdge)
 		if isRm(a.ClientRemove, csID)(succ.Instrs[0]) {
 			esc = nil
 		}
@@ -1164,6 +1177,9 @@ func ruleTablePairing(c *Ctx, rule string) {
 		fn    *ssa.Function
 		table FieldRef
 	}{{a.ClientRemove, a.ChStreams}, {a.ServerRemove, a.SvStreams}} {
+		if side.fn == a.ClientFinish || side.fn == a.ServerFinish {
+			continue // the delete is inlined in the finishing function; judged by the path rule above
+		}
 		okDel := false
 		allInstrs(side.fn, func(in ssa.Instruction) {
 			if call, ok := in.(*ssa.Call); ok && calleeName(call) == "builtin.delete" {
@@ -1373,4 +1389,43 @@ func stripTrimPrefix(v ssa.Value) ssa.Value {
 		}
 	}
 	return v
+}
+
+// isTableRemoval: `in` removes the entry keyed by the stream's id from the given table: a call of a function
+// that deletes table[param] given the id, or an inline delete(table, id).
+func (c *Ctx) isTableRemoval(in ssa.Instruction, table, idf FieldRef) bool {
+	ci, ok := in.(ssa.CallInstruction)
+	if !ok {
+		return false
+	}
+	isID := func(v ssa.Value) bool {
+		o := origin(v)
+		if isFieldLoad(o, idf) {
+			return true
+		}
+		// the id of the stream just allocated
+		if fr, _, isF := loadedField(o); isF && fr == idf {
+			return true
+		}
+		return false
+	}
+	if calleeName(ci) == "builtin.delete" {
+		if fr, _, isF := loadedField(ci.Common().Args[0]); isF && fr == table && isID(ci.Common().Args[1]) {
+			return true
+		}
+		return false
+	}
+	f := staticCallee(ci)
+	if f == nil || !c.W.inRoot(f) || len(ci.Common().Args) < 2 || len(f.Params) < 2 {
+		return false
+	}
+	deletes := false
+	allInstrs(f, func(x ssa.Instruction) {
+		if call, isC := x.(*ssa.Call); isC && calleeName(call) == "builtin.delete" {
+			if fr, _, isF := loadedField(call.Call.Args[0]); isF && fr == table && origin(call.Call.Args[1]) == ssa.Value(f.Params[1]) {
+				deletes = true
+			}
+		}
+	})
+	return deletes && isID(ci.Common().Args[1])
 }
